@@ -212,6 +212,14 @@ func cliArchGen(c *engine.C) engine.Case {
 		defer cleanup()
 		writeReporter(cwd, "deps.json", m.deps)
 		writeReporter(cwd, "identify.json", m.deps)
+		// the report directory already holds a (much longer) arch.dot from an earlier run on another project
+		var old strings.Builder
+		old.WriteString("digraph  {\n")
+		for i := 0; i < 400; i++ {
+			old.WriteString(fmt.Sprintf("\tsubgraph cluster_old%d {\n\t\tlabel=\"old%d\";\n\t\tn%d[label=\"Stale%d\",shape=box];\n\t}\n", i, i, i, i))
+		}
+		old.WriteString("}\n")
+		os.WriteFile(filepath.Join(cwd, "coca_reporter", "arch.dot"), []byte(old.String()), 0o644)
 		filter := ""
 		switch sel {
 		case "one-package":
@@ -288,14 +296,27 @@ func cliApiGen(c *engine.C) engine.Case {
 	sortFlag := c.Bool("sort")
 	withoutForce := c.Bool("without-force-and-without-cached-apis.json")
 	remove := []string{"", "web.", "web.AlphaCtl.,web.", "web.,web.AlphaCtl.", "web.,web."}[c.Choose(5, "remove-names")]
+	// the report directory already holds the reports of an earlier version of the project (one more controller)
+	earlier := c.Bool("reports-of-an-earlier-version-present") && !withoutForce
 	return func() engine.Result {
-		res := engine.Result{InputKey: filesKey(files) + fmt.Sprint(aggregate, sortFlag, withoutForce, remove), Input: map[string]interface{}{"files": filesInput(files), "without_force": withoutForce, "remove": remove}, Nontrivial: true}
+		res := engine.Result{InputKey: filesKey(files) + fmt.Sprint(aggregate, sortFlag, withoutForce, remove, earlier), Input: map[string]interface{}{"files": filesInput(files), "without_force": withoutForce, "remove": remove, "reports_of_an_earlier_version_present": earlier}, Nontrivial: true}
 		if why := validateJava(files); why != "" {
 			res.Skipped = why
 			return res
 		}
 		cwd, cleanup := materialise(files)
 		defer cleanup()
+		if earlier {
+			old := filepath.Join(cwd, "src", "EarlierCtl.java")
+			os.WriteFile(old, []byte("package web;\n\nimport org.springframework.web.bind.annotation.*;\n\n@RestController\n@RequestMapping(\"/earlier\")\npublic class EarlierCtl {\n    @GetMapping(\"/gone\")\n    public String gone() {\n        new Svc().work();\n        return \"\";\n    }\n}\n"), 0o644)
+			if r := runCLI(cwd, "analysis", "-p", "src"); cliFail(&res, "analysis (earlier version)", r) {
+				return res
+			}
+			if r := runCLI(cwd, "api", "-p", "src", "-c", "-f"); cliFail(&res, "api (earlier version)", r) {
+				return res
+			}
+			os.Remove(old)
+		}
 		if r := runCLI(cwd, "analysis", "-p", "src"); cliFail(&res, "analysis", r) {
 			return res
 		}
